@@ -1,5 +1,6 @@
 """Case builders for the heteroscedastic conditionals (HeteroscedasticExpConditional,
-HeteroscedasticCoshM1Conditional): C17 (coherent p(y|x), valid and tight lower bounds) and the
+HeteroscedasticCoshM1Conditional, and -- [hetero-trunc] -- HeteroscedasticHeavisideConditional,
+HeteroscedasticReLUConditional): C17 (coherent p(y|x), valid and tight lower bounds) and the
 heteroscedastic clause of C16 (exact moment matching).
 
 Oracles are NumPy/SciPy only.  mean(x) = Mx + b and cov(x) = AA' + A_k diag(link(Wx + w0)) A_k' are
@@ -8,17 +9,32 @@ True expectations E_{p(x)}[ln N(y; mean(x), cov(x))] come from adaptive quadratu
 (Dx = 1) or tensor Gauss-Hermite with node escalation until two rules agree (Dx >= 2); the agreement
 gap is added to the tolerance of the inequality.
 
+[hetero-trunc] The step link `heaviside(h)` (1 for h >= 0) and the rectified-linear link `relu(h)` have a
+kink at h = 0, where tensor Gauss-Hermite does not converge.  Their true expectations are integrated
+piecewise: Dx = 1 by adaptive quadrature split at the kinks (as above); Dx >= 2 by `expect_logp_kinked`
+(the directions of x that move h are integrated with Gauss-Legendre panels split at the kinks, the
+remaining directions in closed form; two rule orders must agree).  For the step link
+integrate_log_conditional_y is not a bound but the exact value (G = D/(1+D) and ln(1+D) are themselves step
+functions of h), so the oracle is an equality; for the rectified-linear link it is `bound <= truth`.
+Expected links are the truncated-Gaussian closed forms E[1(h>=0)] = Phi(m/s), E[relu(h)] = m Phi(m/s) +
+s phi(m/s), cross-checked for Dx = 1 by quadrature split at the kink.
+
 Sites.  Failures caused by the Woodbury step of `get_conditional_cov` / the lower bounds being applied
 as if A_k'(AA')^{-1}A_k = I (only true for Da = Dy) carry `hetero-woodbury-Da>Dy` in `site`."""
 import numpy as np
 from scipy import integrate as sci_int
+from scipy.stats import norm as sp_norm
 import gen
 from runner import Case, failure
 from oracle.common import rel_err, LOG2PI
 from .common import seeded, fail_if
 
 LINKS = ("exp", "coshm1")
+TRUNC_LINKS = ("heaviside", "relu")          # [hetero-trunc] links with a kink at h = 0
+ALL_LINKS = LINKS + TRUNC_LINKS
 WOOD = "hetero-woodbury-Da>Dy"
+BATCHED = "hetero-batched-px"
+DEGEN = "hetero-trunc-degenerate"
 
 
 # ----------------------------------------------------------------------------------------------
@@ -40,7 +56,16 @@ class HetRef:
         self.S0 = self.A @ self.A.T
 
     def link(self, h):
-        return np.exp(h) if self.cls == "exp" else np.cosh(h) - 1.0
+        h = np.asarray(h, float)
+        if self.cls == "exp":
+            return np.exp(h)
+        if self.cls == "coshm1":
+            return np.cosh(h) - 1.0
+        if self.cls == "heaviside":          # heaviside(h) with value 1 at h = 0
+            return np.where(h >= 0.0, 1.0, 0.0)
+        if self.cls == "relu":
+            return np.maximum(h, 0.0)
+        raise ValueError(self.cls)
 
     def h(self, x):
         return np.atleast_2d(x) @ self.W[:, 1:].T + self.W[:, 0]
@@ -67,7 +92,29 @@ class HetRef:
         s2 = np.einsum("ki,ij,kj->k", w, S, w)
         if self.cls == "exp":
             return np.exp(m + 0.5 * s2)
-        return np.exp(0.5 * s2) * np.cosh(m) - 1.0
+        if self.cls == "coshm1":
+            return np.exp(0.5 * s2) * np.cosh(m) - 1.0
+        # truncated-Gaussian moments of h ~ N(m, s^2) over h >= 0 (s = 0: the link at m)
+        sd = np.sqrt(s2)
+        z = np.where(sd > 0, m / np.where(sd > 0, sd, 1.0), np.where(m >= 0, np.inf, -np.inf))
+        if self.cls == "heaviside":
+            return sp_norm.cdf(z)
+        return m * sp_norm.cdf(z) + sd * sp_norm.pdf(z)
+
+    def expected_link_quad(self, mu, S):
+        """Dx = 1: E[link(h_k(x))] by adaptive quadrature split at the kink h_k(x) = 0 -> (values, error)"""
+        s = float(np.sqrt(S[0, 0])); m0 = float(mu[0])
+        out = np.zeros(self.Dk); err = 0.0
+        for k in range(self.Dk):
+            w0, w = self.W[k, 0], self.W[k, 1]
+            f = lambda t: float(self.link(w * t + w0)) * np.exp(-0.5 * ((t - m0) / s) ** 2) / (s * np.sqrt(2 * np.pi))
+            lo, hi = m0 - 14 * s, m0 + 14 * s
+            pts = [m0 + j * s for j in (-8, -5, -3, -2, -1, 0, 1, 2, 3, 5, 8)]
+            if w != 0.0 and lo < -w0 / w < hi:
+                pts.append(-w0 / w)
+            out[k], e = sci_int.quad(f, lo, hi, points=sorted(set(pts)), epsabs=1e-13, epsrel=1e-13, limit=2000)
+            err = max(err, e)
+        return out, max(err, 1e-12)
 
     def moments(self, mu, S):
         """exact mean / covariance of y and cross-covariance cov(y, x) under p(y|x) N(x; mu, S)"""
@@ -132,6 +179,105 @@ def homoscedastic_expect(ref, y, mu, S):
     L = np.linalg.inv(C)
     r = np.asarray(y, float) - ref.M @ mu - ref.b
     return -0.5 * (np.trace(L @ ref.M @ S @ ref.M.T) + r @ L @ r + np.linalg.slogdet(C)[1] + ref.Dy * LOG2PI)
+
+
+# [hetero-trunc] ------------------------------------------------------------------------------
+# piecewise quadrature for links with a kink at h = 0
+
+def gl_panels(breaks, n):
+    """Gauss-Legendre nodes / weights on the panels between consecutive break points"""
+    z, w = np.polynomial.legendre.leggauss(n)
+    b = np.asarray(breaks, float)
+    a, c = b[:-1], b[1:]
+    X = (0.5 * (c + a))[:, None] + (0.5 * (c - a))[:, None] * z[None]
+    Wt = (0.5 * (c - a))[:, None] * w[None]
+    return X.reshape(-1), Wt.reshape(-1)
+
+
+def std_breaks(kinks, lim=10.0, step=1.0):
+    """panel boundaries for a standard-normal weight: a regular grid plus the kinks inside it"""
+    g = list(np.arange(-lim, lim + 0.5 * step, step))
+    for k in kinks:
+        if np.isfinite(k) and -lim < k < lim and min(abs(k - t) for t in g) > 1e-9:
+            g.append(float(k))
+    return sorted(g)
+
+
+def _phi(s):
+    return np.exp(-0.5 * s * s) / np.sqrt(2 * np.pi)
+
+
+def expect_logp_kinked(ref, y, mu, S):
+    """E_{N(mu,S)}[ln p(y|x)] for a link that is smooth except at h = 0 -> (value, error estimate).
+
+    x = mu + L z with z standard normal.  h = G z + c with G = W[:,1:] L only depends on the coordinates s of z in
+    the row space of G (dimension q <= 2 supported); given s the covariance of y is fixed and ln p(y|x) is
+    quadratic in the remaining coordinates, whose Gaussian expectation is closed-form.  The s-integral uses
+    Gauss-Legendre panels split at the kinks (q = 2: the kink of unit k in s2 moves with s1; G Q1 is lower
+    triangular, so the first unit's kink is a point of the outer variable)."""
+    y = np.asarray(y, float); mu = np.asarray(mu, float); S = np.asarray(S, float)
+    L = np.linalg.cholesky(S)
+    G = ref.W[:, 1:] @ L
+    c = ref.W[:, 1:] @ mu + ref.W[:, 0]
+    q = int(np.linalg.matrix_rank(G))
+    if q > 2 or q == 0:
+        raise NotImplementedError("expect_logp_kinked: row space of W[:,1:] of dimension 1 or 2 only")
+    Q, _ = np.linalg.qr(G.T, mode="complete")
+    Q1, Q2 = Q[:, :q], Q[:, q:]
+    if q == 2 and ref.Dk > 2:
+        raise NotImplementedError("expect_logp_kinked: q = 2 needs Dk = 2 (no crossings of kink lines)")
+    B1 = L @ Q1
+    Ht = G @ Q1                           # h = Ht s + c; [Dk, q], lower triangular
+    Crest = L @ Q2 @ Q2.T @ L.T
+    MCM = ref.M @ Crest @ ref.M.T
+
+    def inner(Sn):                         # Sn [n, q] -> E over the remaining coordinates of ln p(y|x)
+        X = mu[None] + Sn @ B1.T
+        d = y[None] - ref.mean(X)
+        C = ref.cov(X)
+        sol = np.linalg.solve(C, d[..., None])[..., 0]
+        tr = np.trace(np.linalg.solve(C, np.broadcast_to(MCM, C.shape)), axis1=1, axis2=2)
+        return -0.5 * (np.sum(d * sol, axis=1) + tr + np.linalg.slogdet(C)[1] + ref.Dy * LOG2PI)
+
+    def rule(n):
+        if q == 1:
+            kinks = [-c[k] / Ht[k, 0] for k in range(ref.Dk) if Ht[k, 0] != 0.0]
+            s, w = gl_panels(std_breaks(kinks), n)
+            return float(np.sum(w * _phi(s) * inner(s[:, None])))
+        k1 = [-c[k] / Ht[k, 0] for k in range(ref.Dk) if abs(Ht[k, 1]) <= 1e-14 * abs(Ht[k, 0])]
+        s1, w1 = gl_panels(std_breaks(k1), n)
+        tot = 0.0
+        for a, wa in zip(s1, w1 * _phi(s1)):
+            k2 = [-(c[k] + Ht[k, 0] * a) / Ht[k, 1] for k in range(ref.Dk) if abs(Ht[k, 1]) > 1e-14 * abs(Ht[k, 0])]
+            s2, w2 = gl_panels(std_breaks(k2), n)
+            Sn = np.stack([np.full_like(s2, a), s2], axis=1)
+            tot += wa * float(np.sum(w2 * _phi(s2) * inner(Sn)))
+        return tot
+
+    prev, gap = None, np.inf
+    for n in (8, 12, 18, 26):
+        val = rule(n)
+        if prev is not None:
+            gap = abs(val - prev)
+            if gap <= 1e-11 * max(1.0, abs(val)):
+                return val, gap + 1e-12
+        prev = val
+    return prev, gap + 1e-12
+
+
+def expect_for(ref):
+    """the quadrature that converges for the link of `ref`"""
+    if ref.cls in TRUNC_LINKS and ref.Dx >= 2:
+        return expect_logp_kinked
+    return expect_logp
+
+
+def pw_nodes_1d(ref, mu, S, n=12):
+    """Dx = 1: quadrature nodes / weights for N(mu, S) on panels split where a noise unit switches on"""
+    s = float(np.sqrt(S[0, 0])); m0 = float(mu[0])
+    kinks = [(-ref.W[k, 0] / ref.W[k, 1] - m0) / s for k in range(ref.Dk) if ref.W[k, 1] != 0.0]
+    z, w = gl_panels(std_breaks(kinks), n)
+    return (m0 + s * z)[:, None], w * _phi(z)
 
 
 # ----------------------------------------------------------------------------------------------
@@ -248,7 +394,7 @@ def case_constructor_refusals(prop, seed, cls):
 # ----------------------------------------------------------------------------------------------
 # C17: lower bound
 
-def case_lower_bound(prop, seed, cls, Dy, Dx, Da, Dk, R, N, wscale=1.0, internals=True):
+def case_lower_bound(prop, seed, cls, Dy, Dx, Da, Dk, R, N, wscale=1.0, internals=True, halves=True):
     label = f"hetero/lower_bound/{cls}/Dy{Dy}Dx{Dx}Da{Da}Dk{Dk}/R{R}N{N}/w{wscale}"
 
     def fn(m):
@@ -270,8 +416,14 @@ def case_lower_bound(prop, seed, cls, Dy, Dx, Da, Dk, R, N, wscale=1.0, internal
         lb = np.asarray(m.regs[r])
         B = max(R, N)
         true = np.zeros(B); qerr = np.zeros(B)
+        expect = expect_for(ref)
         for k in range(B):
-            true[k], qerr[k] = expect_logp(ref, ys[k if N > 1 else 0], mu[k if R > 1 else 0], S[k if R > 1 else 0])
+            true[k], qerr[k] = expect(ref, ys[k if N > 1 else 0], mu[k if R > 1 else 0], S[k if R > 1 else 0])
+        if cls in TRUNC_LINKS and Dx == 1 and B == 1:     # [hetero-trunc] the two piecewise quadratures must agree
+            v2, e2 = expect_logp_kinked(ref, ys[0], mu[0], S[0])
+            if abs(v2 - true[0]) > 1e-9 * max(1.0, abs(v2)) + e2 + qerr[0]:
+                fails.append(failure(prop, f"oracle-consistency:{cls}", "adaptive quadrature and Gauss-Legendre panels disagree on E[ln p(y|x)]",
+                                     expected=float(true[0]), got=float(v2), params=params))
         if lb.shape != (B,) or not np.all(np.isfinite(lb)):
             fails.append(failure(prop, f"integrate_log_conditional_y:{cls}", "result is not a finite array of one value per pair",
                                  expected=true.tolist(), got=lb.tolist(), params=params))
@@ -279,14 +431,32 @@ def case_lower_bound(prop, seed, cls, Dy, Dx, Da, Dk, R, N, wscale=1.0, internal
         m.meta[-1]["quadrature_error"] = float(np.max(qerr))
         viol = lb - true
         tol = 1e-7 + qerr
-        if np.any(viol > tol):
+        if cls == "heaviside":
+            # [hetero-trunc] step link: D/(1+D) = 1(h>=0)/2 and ln(1+D) = ln 2 1(h>=0), nothing is bounded
+            tol_eq = 1e-8 * np.maximum(1.0, np.abs(true)) + 10 * qerr
+            if np.any(np.abs(viol) > tol_eq):
+                fails.append(failure(prop, f"{wood}integrate_log_conditional_y:exact:{cls}",
+                                     "integrate_log_conditional_y(p_x, y) differs from the true E_p(x)[ln p(y|x)] (exact for the step link)",
+                                     expected=true.tolist(), got=lb.tolist(), deviation=viol.tolist(),
+                                     params=dict(params, quadrature_error=qerr.tolist())))
+        elif np.any(viol > tol):
             fails.append(failure(prop, f"{wood}integrate_log_conditional_y:bound:{cls}",
                                  "integrate_log_conditional_y(p_x, y) exceeds the true E_p(x)[ln p(y|x)]",
                                  expected=true.tolist(), got=lb.tolist(), deviation=viol.tolist(),
                                  params=dict(params, quadrature_error=qerr.tolist())))
         # the two halves of the bound and the intermediate quantities (correspondence only)
-        m.het_lb_quadratic(c, p, y); m.het_lb_log_det(c, p)
-        if internals:
+        if halves:
+            m.het_lb_quadratic(c, p, y)
+        m.het_lb_log_det(c, p)
+        if internals == "light":       # [hetero-trunc] the loop body and the loop only (every call re-traces while_loop / scan)
+            Ainv = np.linalg.inv(ref.S0) @ ref.Ak
+            k = int(rng.integers(0, Dk))
+            a = m.arr(Ainv[:, k])
+            od = m.het_omega_dagger(c, p, k)
+            up = m.het_update_omega(c, p, y, k, a, od)
+            if not raised(m, up) and not raised(m, od):
+                m.het_omega_loop(c, p, y, k, a, up, od)
+        elif internals:
             Ainv = np.linalg.inv(ref.S0) @ ref.Ak
             k = int(rng.integers(0, Dk))
             a = m.arr(Ainv[:, k])
@@ -325,7 +495,7 @@ def case_calling_convention(prop, seed, cls):
     return Case(label, fn)
 
 
-def case_tightness(prop, seed, cls, Dy, Dx, Da, Dk):
+def case_tightness(prop, seed, cls, Dy, Dx, Da, Dk, eps_list=None):
     """gap(eps) = true - bound for input weights eps*w: quadratic decay, zero at zero weights"""
     label = f"hetero/tightness/{cls}/Dy{Dy}Dx{Dx}Da{Da}Dk{Dk}"
 
@@ -340,7 +510,9 @@ def case_tightness(prop, seed, cls, Dy, Dx, Da, Dk):
         y = m.arr(ys)
         gaps = {}
         base = dict(Sigma_x=S.tolist(), mu_x=mu.tolist(), y=ys.tolist())
-        for eps in (1e-1, 1e-2, 1e-3, 0.0):
+        # [hetero-trunc] zero input weights make h degenerate for the step / rectified-linear classes: `case_degenerate`
+        default = (1e-1, 1e-2, 1e-3, 0.0) if cls in LINKS else (1e-1, 1e-2, 1e-3)
+        for eps in (eps_list or default):
             We = W.copy(); We[:, 1:] *= eps
             ref = HetRef(cls, M, b, A, We)
             c = m.hetero(cls, M, b, A, We)
@@ -352,14 +524,16 @@ def case_tightness(prop, seed, cls, Dy, Dx, Da, Dk):
             if eps == 0.0:
                 true, qerr = float(homoscedastic_expect(ref, ys[0], mu[0], S[0])), 1e-12
             else:
-                true, qerr = expect_logp(ref, ys[0], mu[0], S[0])
+                true, qerr = expect_for(ref)(ref, ys[0], mu[0], S[0])
             gaps[eps] = (true - lb, qerr, ref)
-        g0, _, ref0 = gaps[0.0]
+        g0, _, ref0 = gaps.get(0.0, (0.0, 0.0, None))
         if not abs(g0) <= 1e-9 * max(1.0, abs(g0 + 1.0)):
             fails.append(failure(prop, f"{wood}integrate_log_conditional_y:zero-weights:{cls}",
                                  "bound differs from the closed-form E[ln p(y|x)] at zero input weights (homoscedastic limit)",
                                  expected=0.0, got=g0, deviation=g0, params=dict(ref0.params(), eps=0.0, **base)))
         for eps in (1e-1, 1e-2):
+            if eps not in gaps or eps / 10 not in gaps:
+                continue
             g, qe, ref = gaps[eps]
             g10, qe10, _ = gaps[eps / 10]
             if g < -(1e-7 + qe) or g10 < -(1e-7 + qe10):
@@ -373,6 +547,115 @@ def case_tightness(prop, seed, cls, Dy, Dx, Da, Dk):
         m.meta[-1]["gaps"] = {str(k): float(v[0]) for k, v in gaps.items()}
         return fails
     return Case(label, fn)
+
+
+def case_degenerate(prop, seed, cls, kind, Dy, Dx, Da, Dk):
+    """[hetero-trunc] parameters for which the density the step / rectified-linear classes truncate is degenerate,
+    while p(y|x) and E[ln p(y|x)] are perfectly regular:
+    kind = "zero-weights": all input weights zero (h = w0 has variance 0; homoscedastic p(y|x), closed form);
+    kind = "collinear" (Dx = 2, Dk = 1): w parallel to M'a with a = (AA')^{-1} A_k, so that h is an affine function of
+    g = a'(y - Mx - b) and the joint density of (g, h) is singular (the Dx == 1 branch of the code is this situation)."""
+    label = f"hetero/degenerate/{kind}/{cls}/Dy{Dy}Dx{Dx}Da{Da}Dk{Dk}"
+
+    def fn(m):
+        rng = gen.rng_path(seed, label)
+        fails = []
+        M, b, A, W = gen_params(rng, Dy, Dx, Da, Dk, 1.0)
+        S, mu = gen_px(rng, 1, Dx, hi=1.5)
+        ys = gen.points(rng, 1, Dy)
+        if kind == "zero-weights":
+            W[:, 1:] = 0.0
+        else:
+            # mean and noise both driven by the first input, the second input irrelevant.  Fixed dyadic numbers: the
+            # covariance of (g, h) is singular exactly (zero pivot), not up to rounding
+            assert (Dy, Dx, Da, Dk) == (1, 2, 1, 1)
+            M = np.array([[[1.0, 0.0]]]); b = np.array([[0.25]]); A = np.array([[[1.0]]]); W = np.array([[0.25, 2.0, 0.0]])
+            S = np.array([[[1.0, 0.5], [0.5, 2.0]]]); mu = np.array([[0.5, -0.25]]); ys = np.array([[0.75]])
+        ref = HetRef(cls, M, b, A, W)
+        params = dict(ref.params(), kind=kind, Sigma_x=S.tolist(), mu_x=mu.tolist(), y=ys.tolist())
+        c = m.hetero(cls, M, b, A, W)
+        p = m.pdf(1, Dx, S, mu)
+        if prop == "C16":
+            r = m.het_transform("marginal", c, p)
+            _, Sy, _ = ref.moments(mu[0], S[0])
+            got = None if raised(m, r) else np.asarray(m.regs[r].Sigma, dtype=float)
+            if got is None or not np.all(np.isfinite(got)) or rel_err(got[0], Sy) > 1e-8:
+                fails.append(failure(prop, f"{DEGEN}:{kind}:affine_marginal_transformation:Sigma:{cls}",
+                                     "covariance of the marginal != Cov[y] (regular p(y|x), degenerate density of h)",
+                                     expected=Sy.tolist(), got=None if got is None else got.tolist(), params=params))
+            return fails
+        r = m.het_log_cond_y(c, p, m.arr(ys))
+        if kind == "zero-weights":
+            true, qerr = float(homoscedastic_expect(ref, ys[0], mu[0], S[0])), 1e-12
+        else:
+            true, qerr = expect_for(ref)(ref, ys[0], mu[0], S[0])
+        lb = None if raised(m, r) else np.asarray(m.regs[r], dtype=float)
+        ok = lb is not None and lb.shape == (1,) and np.isfinite(lb[0])
+        if ok:
+            ok = (abs(lb[0] - true) <= 1e-8 * max(1.0, abs(true)) + 10 * qerr) if (cls == "heaviside" or kind == "zero-weights") \
+                else (lb[0] - true <= 1e-7 + qerr)
+        if not ok:
+            fails.append(failure(prop, f"{DEGEN}:{kind}:integrate_log_conditional_y:{cls}",
+                                 "the result is not the (finite, well-defined) E[ln p(y|x)] / a bound of it",
+                                 expected=true, got=None if lb is None else lb.tolist(), params=params))
+        return fails
+    return Case(label, fn)
+
+
+def c17_trunc_cases(seed, tier):
+    """[hetero-trunc] step and rectified-linear links"""
+    quick = tier == "quick"
+    out = []
+    # p(y|x): Da = Dy, and one Da > Dy shape (the shared Woodbury assumption)
+    shapes = [(2, 2, 2, 2), (2, 1, 2, 1), (1, 3, 1, 1), (3, 2, 3, 2), (2, 2, 3, 2)]
+    if not quick:
+        shapes += [(3, 1, 3, 3), (1, 2, 1, 1), (2, 3, 2, 2), (4, 2, 4, 3), (1, 1, 2, 2)]
+    for i, (Dy, Dx, Da, Dk) in enumerate(shapes):
+        for j, cls in enumerate(TRUNC_LINKS):
+            if quick and i in (1, 2, 3) and (i + j) % 2 == 1:
+                continue
+            out.append(case_condition_on_x("C17", seed, cls, Dy, Dx, Da, Dk, wscale=1.0 if i % 2 == 0 else 0.4))
+    for cls in TRUNC_LINKS:
+        out.append(case_constructor_refusals("C17", seed, cls))
+        out.append(case_calling_convention("C17", seed, cls))
+    # step link: value == truth; rectified-linear link: value <= truth.  (Dy, Dx, Da, Dk, R, N, weight scale);
+    # Da = Dy and a single-component p(x) in the main cases
+    # (every library call of the rectified-linear class re-traces a while_loop / scan: the quick tier keeps few of them)
+    lbs = [(1, 1, 1, 1, 1, 1, 1.0), (2, 1, 2, 2, 1, 1, 0.8), (2, 2, 2, 1, 1, 1, 0.7), (2, 2, 2, 2, 1, 1, 0.6)]
+    if quick:
+        both = [(s_, "heaviside", s_[:4] == (2, 2, 2, 2)) for s_ in lbs]
+        both += [((2, 1, 2, 2, 1, 1, 0.8), "relu", "light"), ((2, 2, 2, 1, 1, 1, 0.7), "relu", False)]     # Dx = 1 / Dx > 1 branches
+    else:
+        both = [(s_, cls, True) for s_ in lbs for cls in TRUNC_LINKS]
+    both += [((2, 1, 2, 1, 1, 3, 1.0), "heaviside", False),        # one p(x), three observations (no while_loop in this class)
+             ((2, 2, 2, 1, 2, 2, 0.7), "heaviside", False),        # paired batches
+             ((1, 1, 2, 1, 1, 1, 1.0), "heaviside", False)]        # Da > Dy
+    if not quick:
+        both.append(((1, 1, 1, 1, 2, 2, 0.8), "relu", False))
+        more = [(2, 3, 2, 2, 1, 1, 0.5), (3, 1, 3, 3, 1, 1, 1.0), (3, 2, 3, 2, 1, 1, 0.6), (1, 3, 1, 1, 1, 1, 0.6),
+                (2, 1, 2, 1, 4, 1, 1.0), (2, 2, 2, 2, 2, 2, 0.5), (1, 2, 1, 1, 3, 3, 0.9), (2, 1, 2, 2, 2, 2, 1.5),
+                (2, 1, 2, 2, 3, 3, 0.8), (2, 2, 3, 2, 1, 1, 0.6), (1, 1, 3, 1, 1, 1, 1.0), (2, 1, 3, 1, 2, 2, 0.8),
+                (2, 1, 3, 2, 1, 1, 1.0)]
+        both = [(s_, cls, True) for (s_, cls, _) in both]
+        both += [(s_, cls, True) for s_ in more for cls in TRUNC_LINKS]
+        both += [((2, 2, 2, 2, 1, 3, 0.7), "heaviside", True), ((1, 1, 1, 1, 1, 4, 1.0), "heaviside", True)]
+    for ((Dy, Dx, Da, Dk, R, N, ws), cls, internals) in both:
+        # (quick tier: the quadratic half of the rectified-linear bound is one more trace of the while_loop; it is compared
+        # in the case with the internals and through the sum everywhere)
+        out.append(case_lower_bound("C17", seed, cls, Dy, Dx, Da, Dk, R, N, wscale=ws, internals=internals,
+                                    halves=not (quick and cls == "relu" and not internals)))
+    # rectified-linear link: the gap closes quadratically with the input weights
+    tight = [(1, 1, 1, 1)] + ([] if quick else [(2, 1, 2, 2), (2, 2, 2, 1)])
+    for (Dy, Dx, Da, Dk) in tight:
+        out.append(case_tightness("C17", seed, "relu", Dy, Dx, Da, Dk, eps_list=(1e-1, 1e-2) if quick else None))
+    # regular p(y|x), degenerate density of h / of (g, h)
+    for cls in TRUNC_LINKS:
+        if not quick or cls == "heaviside":       # (quick tier: the rectified-linear class through C16 only)
+            out.append(case_degenerate("C17", seed, cls, "zero-weights", 1, 1, 1, 1))
+            out.append(case_degenerate("C17", seed, cls, "collinear", 1, 2, 1, 1))
+        if not quick:
+            out.append(case_degenerate("C17", seed, cls, "zero-weights", 2, 2, 2, 1))
+    return out
 
 
 def c17_cases(seed, tier):
@@ -410,6 +693,7 @@ def c17_cases(seed, tier):
     out.append(case_tightness("C17", seed, "exp", 1, 1, 2, 1))      # Da > Dy: the shared Woodbury assumption
     if not quick:
         out.append(case_tightness("C17", seed, "coshm1", 2, 1, 3, 2))
+    out.extend(c17_trunc_cases(seed, tier))      # [hetero-trunc]
     return seeded(out, seed)
 
 
@@ -419,7 +703,7 @@ def c17_cases(seed, tier):
 def case_moments(prop, seed, cls, Dy, Dx, Da, Dk, R=1, wscale=0.8):
     label = f"hetero/moments/{cls}/Dy{Dy}Dx{Dx}Da{Da}Dk{Dk}/R{R}/w{wscale}"
     batched = (R != 1)
-    tag = "hetero-batched-px:" if batched else ""
+    tag = ""      # (was the known-finding tag `hetero-batched-px`; repaired in /repo a0dce47, failures are violations again)
 
     def fn(m):
         rng = gen.rng_path(seed, label)
@@ -435,8 +719,18 @@ def case_moments(prop, seed, cls, Dy, Dx, Da, Dk, R=1, wscale=0.8):
         # expected noise diagonal (closed-form Gaussian integrals) and expected covariance
         r_ = m.het_noise_diag(c, p)
         if not raised(m, r_):
-            fail_if(fails, prop, f"_integrate_noise_diagonal:{cls}", "E[link(h_k)] differs from the closed form",
-                    np.asarray(m.regs[r_]).reshape(R, Dk), np.stack([ref.expected_link(mu[r], S[r]) for r in range(R)]), params=params)
+            got_d = np.asarray(m.regs[r_]); exp_d = np.stack([ref.expected_link(mu[r], S[r]) for r in range(R)])
+            if got_d.size != R * Dk:
+                fails.append(failure(prop, f"{tag}_integrate_noise_diagonal:{cls}", f"E[link(h_k)]: {got_d.size} values for the R*Dk = {R * Dk} (component, unit) pairs",
+                                     expected=exp_d.tolist(), got=got_d.tolist(), params=params))
+            else:
+                fail_if(fails, prop, f"_integrate_noise_diagonal:{cls}", "E[link(h_k)] differs from the closed form",
+                        got_d.reshape(R, Dk), exp_d, params=params)
+        if cls in TRUNC_LINKS and Dx == 1 and not batched:      # [hetero-trunc] closed form vs quadrature split at the kink
+            ql, qe = ref.expected_link_quad(mu[0], S[0])
+            if np.max(np.abs(ql - ref.expected_link(mu[0], S[0]))) > 1e-10 + qe:
+                fails.append(failure(prop, f"oracle-consistency:{cls}", "truncated-Gaussian closed form and piecewise quadrature of E[link(h)] disagree",
+                                     expected=ref.expected_link(mu[0], S[0]).tolist(), got=ql.tolist(), params=params))
         m.het_integrate_sigma_x(c, p)
         for which in (0, 1):
             m.het_expected_moments(c, p, which)
@@ -445,8 +739,9 @@ def case_moments(prop, seed, cls, Dy, Dx, Da, Dk, R=1, wscale=0.8):
             Eyx = Cyx + np.einsum("ri,rj->rij", mu_y, mu)
             fail_if(fails, prop, f"get_expected_cross_terms:{cls}", "E[y x'] differs", np.asarray(m.regs[r_]), Eyx, params=params)
         # own-quadrature of what the object returns when conditioned on x (Dx <= 2, R = 1)
-        if Dx <= 2 and not batched:
-            X, w = gh_nodes(40 if Dx == 1 else 24, mu[0], S[0])
+        # ([hetero-trunc] links with a kink: Dx = 1 only, on panels split at the kinks)
+        if (Dx <= 2 if cls in LINKS else Dx == 1) and not batched:
+            X, w = gh_nodes(40 if Dx == 1 else 24, mu[0], S[0]) if cls in LINKS else pw_nodes_1d(ref, mu[0], S[0])
             q = m.het_condition_on_x(c, m.arr(X))
             if not raised(m, q):
                 Q = m.regs[q]
@@ -457,7 +752,7 @@ def case_moments(prop, seed, cls, Dy, Dx, Da, Dk, R=1, wscale=0.8):
                 Cyx_q = np.einsum("n,ni,nj->ij", w, d, X - mu[0][None])
                 for name, a_, b_ in (("mean", mu_q, mu_y[0]), ("covariance", Sy_q, Sy[0]), ("cross-covariance", Cyx_q, Cyx[0])):
                     if rel_err(a_, b_) > 1e-9:
-                        fails.append(failure(prop, f"oracle-consistency:{cls}", f"Gauss-Hermite moments of condition_on_x and the closed form disagree on the {name}",
+                        fails.append(failure(prop, f"oracle-consistency:{cls}", f"quadrature moments of condition_on_x and the closed form disagree on the {name}",
                                              expected=np.asarray(b_).tolist(), got=np.asarray(a_).tolist(), params=params))
         mr = m.het_transform("marginal", c, p)
         if raised(m, mr):
@@ -500,16 +795,28 @@ def c16_hetero_cases(seed, tier):
     for i, (Dy, Dx, Da, Dk) in enumerate(shapes):
         for cls in LINKS:
             out.append(case_moments("C16", seed, cls, Dy, Dx, Da, Dk, wscale=1.0 if i % 2 == 0 else 0.5))
+    # [hetero-trunc] step / rectified-linear links (Dx = 1: piecewise quadrature of condition_on_x as well)
+    tshapes = [(1, 1, 1, 1), (2, 1, 2, 2), (2, 2, 2, 2), (3, 2, 3, 1), (2, 1, 3, 2)]
+    if not quick:
+        tshapes += [(2, 3, 2, 2), (3, 1, 3, 3), (1, 2, 2, 2), (3, 3, 4, 3), (1, 3, 1, 1), (4, 2, 4, 2)]
+    for i, (Dy, Dx, Da, Dk) in enumerate(tshapes):
+        for cls in TRUNC_LINKS:
+            out.append(case_moments("C16", seed, cls, Dy, Dx, Da, Dk, wscale=1.0 if i % 2 == 0 else 0.5))
+    for cls in TRUNC_LINKS:
+        out.append(case_degenerate("C16", seed, cls, "zero-weights", 1, 1, 1, 1))
     return out
 
 
 def c12_hetero_cases(seed, tier):
     """p(x) with several components: every component must get its own moments (property C12: batches are
-    independent components).  The pinned code sums the expected noise over the components (Dk = 1) or raises
-    (Dk > 1) — recorded as known finding `hetero-batched-px`."""
+    independent components).  The pinned code summed the expected noise over the components (Dk = 1) or raised
+    (Dk > 1) — repaired in /repo a0dce47 (`fixed:` entry in known_findings.json)."""
     out = []
     for cls in LINKS:
         out.append(case_moments("C12", seed, cls, 2, 2, 2, 1, R=2))
+        out.append(case_moments("C12", seed, cls, 2, 2, 2, 2, R=2))
+    # [hetero-trunc] step / rectified-linear classes (the pinned code used component 0 of p(x) for every component)
+    for cls in TRUNC_LINKS:
         out.append(case_moments("C12", seed, cls, 2, 2, 2, 2, R=2))
     return out
 
@@ -539,3 +846,21 @@ def replay_batched_px():
     # exact: Var[y] = 1 (x) + 1 (AA') + E[exp(x)] with x ~ N(mu, 1): differs per component
     exact = np.array([2.0 + np.exp(0.5), 2.0 + np.exp(1.5)])
     return bool(np.max(np.abs(S - exact)) > 1e-3)
+
+
+def replay_trunc_degenerate():
+    """[hetero-trunc] minimal inputs of the finding `hetero-trunc-degenerate`: zero input weights (both classes) and,
+    for Dx = 2, w parallel to M'a (mean and noise driven by the same input); the exact values are finite"""
+    import jax.numpy as jnp
+    from gaussian_toolbox import approximate_conditional as ac, pdf
+    J = jnp.asarray
+    bad = []
+    for K in (ac.HeteroscedasticHeavisideConditional, ac.HeteroscedasticReLUConditional):
+        c = K(M=J([[[1.0]]]), b=J([[0.0]]), A=J([[[1.0]]]), W=J([[0.5, 0.0]]))
+        p = pdf.GaussianPDF(Sigma=J([[[1.0]]]), mu=J([[0.0]]))
+        bad.append(not np.isfinite(np.asarray(c.integrate_log_conditional_y(p, J([[0.3]])))[0]))
+        bad.append(not np.all(np.isfinite(np.asarray(c.affine_marginal_transformation(p).Sigma))))
+        c = K(M=J([[[1.0, 0.0]]]), b=J([[0.25]]), A=J([[[1.0]]]), W=J([[0.25, 2.0, 0.0]]))
+        p = pdf.GaussianPDF(Sigma=J([[[1.0, 0.5], [0.5, 2.0]]]), mu=J([[0.5, -0.25]]))
+        bad.append(not np.isfinite(np.asarray(c.integrate_log_conditional_y(p, J([[0.75]])))[0]))
+    return all(bad)
